@@ -54,6 +54,33 @@ def _module_like(template: str, root: str) -> bool:
     return False
 
 
+def _helper_schedules(ctx, m: FuncInfo, call: ast.Call, root: str, must: bool, depth: int = 2) -> bool:
+    """`self.helper(...)` whose body schedules an import providing root (on every normal exit if must, on some exit otherwise)."""
+    f = call.func
+    if depth <= 0 or not (isinstance(f, ast.Attribute) and isinstance(f.value, ast.Name) and f.value.id == "self") or m.cls is None:
+        return False
+    if f.attr in ("add_needed_import", "add_import"):
+        return False
+    t = ctx.prog.lookup_method(m.cls.qname, f.attr)
+    if t is None or is_framework(t.qname) or t.qname == m.qname:
+        return False
+
+    def ev(c):
+        if any(name == root or name == HOLE for name in import_events(ctx, t, c)):
+            return "EV:imp"
+        if _helper_schedules(ctx, t, c, root, must, depth - 1):
+            return "EV:imp"
+        return None
+
+    if not any(isinstance(c, ast.Call) and ev(c) for c in walk_no_nested(t.node)):
+        return False
+    fa = FlowAnalysis(t.node, ev)
+    exits = [e for e in fa.exits if e.kind != "raise"]
+    if must:
+        return bool(exits) and all(has_event(e.state, "EV:imp") for e in exits)
+    return any(may_event(e.state, "EV:imp") for e in exits)
+
+
 def _pairing_ok(ctx, tm, owner, m: FuncInfo, emit_node: ast.AST, root: str, conds: frozenset, depth: int = 3, strict: bool = True) -> tuple[bool, str]:
     """An import providing `root` accompanies the emission.
 
@@ -68,6 +95,8 @@ def _pairing_ok(ctx, tm, owner, m: FuncInfo, emit_node: ast.AST, root: str, cond
         for name in import_events(ctx, m, call):
             if name == root or name == HOLE:
                 evs.append("EV:imp")
+        if not evs and _helper_schedules(ctx, m, call, root, must=strict):
+            evs.append("EV:imp")  # a helper of the family that schedules the import (on all of its exits when strict)
         return evs or None
 
     fa = FlowAnalysis(m.node, ev, entry=conds)
